@@ -72,6 +72,7 @@ RULES = [
  ('compares with the stored results of the workbook when iterative', 'C12', 'altered-cell-not-reported/* (workbook saved with iterative calculation on: precedents were recalculated before they were compared)'),
  ('is fitted to its range like any other result', 'C13', 'array-range-element-wrong/* ({=OFFSET(A1,0,0,2,4)} over a larger or smaller target read the neighbouring cells instead of repeating / filling with #N/A)'),
  ('written with leading zeros in a formula compiles', 'C02', 'number-literal/leading-zeros-* (=007, =ABS(007): python rejects the literal)'),
+ ('takes a numpy number for the python number it holds', 'C10', 'arith/nonfinite-result + power/nonfinite-result + compare/result-type-numpy.bool (numpy.float64 operand: x/0 gave inf, a comparison gave numpy.bool)'),
  ('an array and an error value', 'C13', 'array-formula-member-not-pointwise/array-with-error-valued-scalar'),
 ]
 
